@@ -27,7 +27,10 @@ Record snap := mkSnap {
   s_req : nat;              (* requests the endpoint has seen so far *)
   s_delivered : bool;       (* this step was a release and a request was waiting for it *)
   s_stat : list status;     (* per caller, arrival order *)
-  s_cache : list nat }.     (* key materials in cachedKeys (verif hook) *)
+  s_cache : list nat;       (* key materials in cachedKeys (verif hook) *)
+  s_quiet : bool }.         (* the driver saw a stable state within its time-out: every unfinished
+                               call parked in keysFromRemote's select, and the in-flight slot
+                               occupied exactly when a download is waiting at the endpoint *)
 
 Inductive observed := OScript (snaps : list snap) | OPanic | ORace (clean : bool).
 
@@ -59,7 +62,7 @@ Definition status_of (c : caller) : status :=
   end.
 
 Definition snap_of (w : world) (d : bool) : snap :=
-  mkSnap (w_fetches w) d (map status_of (w_callers w)) (map k_mat (w_cache w)).
+  mkSnap (w_fetches w) d (map status_of (w_callers w)) (map k_mat (w_cache w)) true.
 
 Fixpoint run_script (w : world) (ms : list mstep) : list snap :=
   match ms with
@@ -130,6 +133,8 @@ Definition check_step (g : truth) (p s : snap) (m : mstep) : bool * truth :=
   let is_release := match m with MRelease _ => true | _ => false end in
   let common :=
     Nat.eqb (List.length (s_stat s)) n
+    && s_quiet s   (* nothing hangs: no call stuck outside its wait, no in-flight slot left
+                      occupied without a download (which would block every later refresh) *)
     && forallb (fun t => is_pending (stat_at p t) || status_eqb (stat_at s t) (stat_at p t)) tids
          (* a finished call stays finished with the same answer *)
     && negb (existsb is_bad (s_stat s))
@@ -150,6 +155,13 @@ Definition check_step (g : truth) (p s : snap) (m : mstep) : bool * truth :=
         (negb (unique_match (gt_good g) tok) || (is_ok (stat_at s t) && Nat.eqb (s_req s) (s_req p)))
           (* a key of the last good download still verifies, without a new download *)
         && (negb (is_ok (stat_at s t)) || signer_in (gt_good g) tok)
+        && match stat_at s t with
+           | SPending | SOk | SErr ESig => true    (* waits for a download, or answered by the cache *)
+           | SErr ECtx => mem t canc'
+           | _ => false   (* "unable to fetch" / "no key" before any download was answered for this
+                             call: the answer of a download that ended before the call began; only
+                             verifications WAITING for a failed download fail with it *)
+           end
     | MCancel _ | MExpire _ => true
     | MRelease r =>
         if s_delivered s then
@@ -177,14 +189,15 @@ Fixpoint check_steps (g : truth) (p : snap) (ms : list mstep) (ss : list snap) :
 
 Definition spec (i : input) (o : observed) : bool :=
   match i, o with
-  | Script _ ms, OScript ss => check_steps (mkGt [] [] [] 0) (mkSnap 0 false [] []) ms ss
+  | Script _ ms, OScript ss => check_steps (mkGt [] [] [] 0) (mkSnap 0 false [] [] true) ms ss
   | RaceSoak, ORace clean => clean   (* no data race reported, no schedule-independent fact violated *)
   | _, _ => false
   end.
 
 Definition snap_eqb (a b : snap) : bool :=
   Nat.eqb (s_req a) (s_req b) && Bool.eqb (s_delivered a) (s_delivered b)
-  && list_eqb status_eqb (s_stat a) (s_stat b) && list_eqb Nat.eqb (s_cache a) (s_cache b).
+  && list_eqb status_eqb (s_stat a) (s_stat b) && list_eqb Nat.eqb (s_cache a) (s_cache b)
+  && Bool.eqb (s_quiet a) (s_quiet b).
 
 Definition obs_eqb (a b : observed) : bool :=
   match a, b with
